@@ -118,4 +118,6 @@ def run(ctx):
     rep.floor('R03.3', 'state fields', n_state, 3 * ns)
     from rules import profile
     profile.check(ctx, rep, 'R03.P', ['slog_finish', 'slog_start'])
+    from rules import witness
+    witness.check(ctx, rep, 'R03.W', ['WMoveServer', 'WStatePrivate'])
     return rep
